@@ -204,7 +204,10 @@ impl MultiRecordLog {
             }
         }
         let position = position_opt.unwrap_or(next_position);
-        let file_number = self.record_log_writer.current_file().clone();
+        // The file this record will start in. `None` if the current file is exactly full and its
+        // successor does not exist yet: the write below creates it.
+        let file_number_opt = self.record_log_writer.file_of_next_write();
+        let previous_file = self.record_log_writer.current_file().clone();
 
         let mut multi_record_spare_buffer = std::mem::take(&mut self.multi_record_spare_buffer);
         MultiRecord::serialize(payloads, position, &mut multi_record_spare_buffer);
@@ -226,6 +229,9 @@ impl MultiRecordLog {
         let num_bytes_written = self.record_log_writer.write_record(record)?;
         self.persist_on_policy()?;
 
+        let file_number = file_number_opt
+            .or_else(|| self.record_log_writer.directory().files.next(&previous_file))
+            .unwrap_or(previous_file);
         let mem_queue = self.in_mem_queues.get_queue_mut(queue)?;
         let mut max_position = position;
         for record in records {
